@@ -92,6 +92,18 @@ class PositiveScalar(RegionAttribute):
                              'finite scalar')
 
 
+class PositiveScalarMin3(PositiveScalar):
+    """
+    Descriptor class to check that value is a scalar that is at least 3
+    (e.g., the number of vertices of a polygon).
+    """
+
+    def _validate(self, value):
+        super()._validate(value)
+        if value < 3:
+            raise ValueError(f'{self.name!r} must be >= 3')
+
+
 class ScalarSkyCoord(RegionAttribute):
     """
     Descriptor class to check that value is a scalar
